@@ -265,7 +265,7 @@ def check(run, ctx):
     if not recs:
         run.ok(S7, "src", "no functools cache decorators in the package", nontrivial=False)
 
-    S8 = run.rule("S8", "no function mutates module-level state (global re-binding, container mutation, item assignment) except the allowlisted ignore-parser singleton", floor=3,
+    S8 = run.rule("S8", "no function stores argument-derived data in module-level state (global re-binding, container mutation, item assignment) except the allowlisted ignore-parser singleton", floor=3,
                   decides="nothing outlives a lint call in module globals: a second call, another project or another file order sees no residue of the first")
     S8_ALLOWED = {
         ("src.linter_config.ignore", "_CACHED_PARSER"): "the documented process-wide parser singleton, re-created when the project root changes (its own accumulating attributes are decided by S6)",
@@ -280,6 +280,9 @@ def check(run, ctx):
             if key not in seen_allowed:
                 seen_allowed.add(key)
                 run.ok(S8, f"{key[0].replace('src.', '', 1)}.{key[1]}", "allowlisted: " + S8_ALLOWED[key])
+            continue
+        if not mu.get("data"):
+            run.ok(S8, f"{key[0].replace('src.', '', 1)}.{mu['func']}:{key[1]}", f"{mu['how']}: the stored value does not depend on any argument (a lazily built constant), so it cannot carry one call's data into the next")
             continue
         run.finding(S8, f"{key[0].replace('src.', '', 1)}.{mu['func']}:{key[1]}", f"module-state:{mu['how']}", f"{key[0]}.{mu['func']} changes the module-level name {key[1]} ({mu['how']}): it lives as long as the process, so what one file, project or lint call leaves there decides the verdict for the next", f"{mu['module'].rel}:{mu['line']}")
     run.ok(S8, "src modules", f"{n_glob} module-level names examined, {len(muts)} run-time mutations, {len(muts) - sum(1 for mu in muts if (mu['module'].name, mu['name']) in S8_ALLOWED)} outside the allowlist")
@@ -329,6 +332,25 @@ S6_EXEMPT = {
 
 
 S6_PURE = {"re.compile"}
+
+
+def _pure_memo_cg(cg, module: str, target: ast.Subscript, value: ast.expr) -> bool:
+    """self.memo[k] = f(k, <constants>) where nothing reachable from f reads a file: a function of the key alone."""
+    if _pure_memo(target, value):
+        return True
+    if not (isinstance(value, ast.Call) and isinstance(target.slice, ast.Name)):
+        return False
+    names = {x.id for a in list(value.args) + [k.value for k in value.keywords] for x in ast.walk(a) if isinstance(x, ast.Name)}
+    if not names or not names <= {target.slice.id}:
+        return False
+    if isinstance(value.func, ast.Attribute) and isinstance(value.func.value, ast.Name) and value.func.value.id == "self":
+        return False  # a method of the object itself may read its other state
+    st = cg.site_of(module, value)
+    if st is None or not st.get("resolved") or not st["callees"]:
+        return False
+    READS = {"pathlib.Path.read_text", "pathlib.Path.read_bytes", "builtins.open", "pathlib.Path.open", "pathlib.Path.stat", "pathlib.Path.exists", "io.open", "os.stat", "os.listdir", "os.walk"}
+    reach = cg.reach(list(st["callees"]))
+    return not any((q[4:] if q.startswith("new:") else q) in READS for q in reach)
 
 
 def _pure_memo(target: ast.Subscript, value: ast.expr) -> bool:
@@ -426,7 +448,7 @@ def _s6(run, ctx, L, S6):
                     if isinstance(n, ast.Assign):
                         for t in n.targets:
                             if isinstance(t, ast.Subscript) and isinstance(t.value, ast.Attribute) and isinstance(t.value.value, ast.Name) and t.value.value.id == "self":
-                                if _pure_memo(t, n.value):
+                                if _pure_memo_cg(cg, m.module.name, t, n.value):
                                     continue
                                 acc.setdefault(t.value.attr, f"{m.name}:{n.lineno} [k]=")
                             if isinstance(t, ast.Attribute) and isinstance(t.value, ast.Name) and t.value.id == "self":
